@@ -59,6 +59,9 @@ USERS = [
     ("anon", "foo :- {HA}, S > 1.", 2),
     ("two_uses", "foo(X) :- X = #sum {{ S,V : {H} }}. bar(V) :- {H}, S > 2.", 2),
     ("plain_body", "foo(V,S) :- {H}.", 2),
+    ("sum_w_outer_clash", "foo(Y,X) :- t(Y), X = #sum {{ S,V : {H} }}.", 2),
+    ("max_w_outer_clash", "foo(Y,X) :- t(Y), X = #max {{ S,V : {H} }}.", 2),
+    ("sum_w_outer_clash_neg", "foo(Y) :- t(Y), not 3 <= #sum {{ S,V : {H} }}.", 2),
     ("two_uses_weak_cond", "foo(X) :- X = #sum {{ S,V : {H} }}.\n:~ g(V), S < 3 : {H}. [1@1,V]", 2),
     ("two_uses_rule_cond", "foo(X) :- X = #sum {{ S,V : {H} }}.\nbar(V) :- g(V), S < 3 : {H}.", 2),
     ("two_uses_rule_condhead", "foo(X) :- X = #sum {{ S,V : {H} }}.\nbar :- {H} : g(V), t(S).", 2),
@@ -93,10 +96,21 @@ def jobs(tier: str):
     if not quick:
         universe.append("dpe(2,-1)")
 
-    def cfgs(hsig):
+    def cfgs(hsig, user=""):
+        import re  # pylint: disable=import-outside-toplevel
+
+        # the heads of the user statements are the outputs (foo and bar occur with several arities)
+        heads = []
+        for stm in re.split(r"\.(?:\s+|$)", user):
+            m = re.match(r"\s*\{?\s*(foo|bar)(\(([^)]*)\))?\s*[:}.]?", stm)
+            if m and (":-" in stm or m.group(0).strip()) and not stm.strip().startswith((":~", ":-", "#")):
+                sig = [m.group(1), 0 if not m.group(2) else m.group(3).count(",") + 1]
+                if sig not in heads:
+                    heads.append(sig)
+        heads = heads or [["foo", 1]]
         out = []
-        for decl, (inp, outp) in (("neither", (IN0, [["foo", 1]])), ("out_empty", (IN0, [])),
-                                  ("h_out", (IN0, [["foo", 1], hsig])), ("h_in", (IN0 + [hsig], [["foo", 1]]))):
+        for decl, (inp, outp) in (("neither", (IN0, heads)), ("out_empty", (IN0, [])),
+                                  ("h_out", (IN0, heads + [hsig])), ("h_in", (IN0 + [hsig], heads))):
             if quick and decl in ("h_in",):
                 continue
             out.append(config(["inline"], inp, outp, orc("inout", costs=True, multiset=False)))
@@ -120,7 +134,7 @@ def jobs(tier: str):
                         hat, h2, ha = "h(V,S)", "h(V,2)", "h(_,S)"
                     user = utext.format(H=hat, H2=h2, HA=ha, H1="h(S)")
                     prog = "\n".join([BASE, helper, user])
-                    yield job("C15", prog, universe, cfgs(["h", harity]),
+                    yield job("C15", prog, universe, cfgs(["h", harity], user),
                               meta={"helper": hname, "fun": fun, "user": uname})
         for dname, dtext in DIRECT:
             for fun in FUNS:
